@@ -24,12 +24,13 @@ Theorem C02_would_be_first : forall c ks,
 Proof. exact would_be_first_holds. Qed.
 Print Assumptions C02_would_be_first.
 
-(* one phase, read declaratively (rule sets without ctl:ruleEngine and allow, engine On): the
+(* one phase, read declaratively (rule sets without ctl:ruleEngine, allow, skip, skipAfter; engine On): the
    interruption is the one of the first rule of that phase in configuration order whose condition
    and chain hold and whose action is deny / drop / redirect; exactly the rules of the phase up to
    and including it are evaluated (all of them in the logging phase) *)
 Theorem C02_phase_first_disruptive : forall c p s,
   tp_plain c = true -> st_engine s = MOn -> st_allow s = None -> st_intr s = None ->
+  st_skip s = 0 -> st_skipafter s = None ->
   let s' := tp_eval_phase c p s in
   st_intr s' = tp_spec_first s p (c_rules c) /\
   st_trace s' = st_trace s ++ EvPhase p ::
@@ -60,20 +61,35 @@ Theorem C02_only_three_interrupt : forall r,
 Proof. exact only_three_interrupt. Qed.
 Print Assumptions C02_only_three_interrupt.
 
-(* parser: the last disruptive action of a list wins; block (or no disruptive action) inherits the
-   SecDefaultAction of the rule's phase together with its status *)
-Theorem C02_last_disruptive_wins : forall ds r a,
-  tp_last_dact (rr_dacts r) = Some a -> tp_is_block a = false -> r_act (tp_compile_rule ds r) = Some a.
-Proof. exact compile_keeps_own. Qed.
+(* parser (appendRuleAction with its index tracking, exactly as coded): of all the disruptive actions
+   written in an action list exactly one survives - the LAST one, wherever the earlier ones stand and
+   whatever non-disruptive actions separate them; the non-disruptive actions are all kept in order *)
+Theorem C02_parse_one_disruptive : forall l,
+  dis_items (tp_parse_actions l) = match tp_last_dis l with Some d => [IDis d] | None => [] end /\
+  nondis_items (tp_parse_actions l) = nondis_items l.
+Proof. exact parse_one_disruptive. Qed.
+Print Assumptions C02_parse_one_disruptive.
+
+Theorem C02_last_disruptive_wins : forall l, tp_first_dis (tp_parse_actions l) = tp_last_dis l.
+Proof. exact last_disruptive_wins. Qed.
 Print Assumptions C02_last_disruptive_wins.
 
+(* the compiled rule: without SecDefaultAction of its phase the last disruptive action written; with
+   one, block (or no disruptive action) inherits the default's disruptive action *)
+Theorem C02_compiled_action : forall ds r,
+  rr_mark r = None -> tp_defaults_for ds (rr_phase r) = None ->
+  r_act (tp_compile_rule ds r) = tp_last_dis (rr_acts r).
+Proof. exact compile_act_no_default. Qed.
+Print Assumptions C02_compiled_action.
+
 Theorem C02_block_inherits_default : forall ds r d,
-  (tp_last_dact (rr_dacts r) = Some DBlock \/ tp_last_dact (rr_dacts r) = None) ->
-  tp_defaults_for ds (rr_phase r) = Some d ->
-  r_act (tp_compile_rule ds r) = tp_last_dact (df_dacts d) /\
-  r_status (tp_compile_rule ds r) =
-    match rr_status r with Some n => n | None => match df_status d with Some n => n | None => 0 end end.
-Proof. exact compile_block_inherits. Qed.
+  rr_mark r = None -> tp_defaults_for ds (rr_phase r) = Some d ->
+  r_act (tp_compile_rule ds r) =
+  match tp_last_dis (rr_acts r) with
+  | Some a => if tp_is_block_item (IDis a) then tp_last_dis (df_acts d) else Some a
+  | None => tp_last_dis (df_acts d)
+  end.
+Proof. exact compile_act_with_default. Qed.
 Print Assumptions C02_block_inherits_default.
 
 (* ---- the interruption is final ---- *)
@@ -112,6 +128,31 @@ Theorem C02_no_eval_after_interrupt : forall c ks t1 t2,
   Forall (fun e => tp_late_ok e = true) t2.
 Proof. exact no_eval_after_interrupt_holds. Qed.
 Print Assumptions C02_no_eval_after_interrupt.
+
+(* skip / skipAfter / allow:phase only work within the phase that raised them: after every call of
+   every call list tx.Skip = 0, tx.SkipAfter = "" and no allow:phase is pending (also when the phase
+   was left because of an interruption) *)
+Theorem C02_flow_reset : forall c ks,
+  st_skip (tp_run c ks) = 0 /\ st_skipafter (tp_run c ks) = None /\ st_allow (tp_run c ks) <> Some SPhase.
+Proof. exact flow_run. Qed.
+Print Assumptions C02_flow_reset.
+
+(* ... and ALL logging-phase rules still run: ProcessLogging in any reachable state (interrupted or
+   not, whatever flow actions the interrupting rule carried) evaluates exactly the rules of the logging
+   phase, all of them, in configuration order (guard: the logging-phase rules themselves carry no
+   skip / skipAfter / allow:phase) *)
+Theorem C02_logging_runs_all : forall c ks,
+  tp_log_plain c = true -> is_off (tp_run c ks) = false ->
+  exists evs, st_trace (tp_log c (tp_run c ks)) = st_trace (tp_run c ks) ++ EvPhase 5 :: evs /\
+    Forall2 (is_rule_event 5) evs (tp_phase_rules c 5).
+Proof. exact logging_runs_all_holds. Qed.
+Print Assumptions C02_logging_runs_all.
+
+(* without the guard: ProcessLogging behaves exactly as it would from a fresh flow state *)
+Theorem C02_logging_as_fresh : forall c ks,
+  tp_log c (tp_run c ks) = tp_log c (set_flow (tp_run c ks) 0 None).
+Proof. exact logging_as_fresh_holds. Qed.
+Print Assumptions C02_logging_as_fresh.
 
 (* ---- DetectionOnly ---- *)
 
@@ -168,9 +209,9 @@ Proof. exact phase_at_most_once_holds. Qed.
 Print Assumptions C02_phase_at_most_once.
 
 (* every rule of the request and response phases is evaluated at most once, for EVERY order of
-   calls (rule ids are unique, as the parser enforces) *)
+   calls (rule ids are unique, as the parser enforces; SecMarker entries have no id) *)
 Theorem C02_rule_at_most_once : forall c ks r,
-  NoDup (map r_id (c_rules c)) -> In r (c_rules c) -> 1 <= r_phase r <= 4 ->
+  NoDup (map r_id (tp_real_rules c)) -> In r (c_rules c) -> r_mark r = None -> 1 <= r_phase r <= 4 ->
   (tp_count_rule (r_id r) (st_trace (tp_run c ks)) <= 1)%nat.
 Proof. intros c ks r H. exact (rule_at_most_once_holds c H ks r). Qed.
 Print Assumptions C02_rule_at_most_once.
@@ -185,17 +226,20 @@ Theorem C02_phase_order : forall c ks t1 e1 t2 e2 t3 p1 p2,
 Proof. exact phase_order_holds. Qed.
 Print Assumptions C02_phase_order.
 
-(* one Eval, any state, any rule set (allow and ctl included): the rules evaluated are a prefix, in
-   configuration order and without gaps, of the rules of that phase *)
-Theorem C02_eval_prefix : forall c p s,
-  exists evs, st_trace (tp_eval_phase c p s) = st_trace s ++ EvPhase p :: evs /\
-    Forall2 (is_rule_event p) evs (firstn (length evs) (tp_phase_rules c p)).
-Proof. exact eval_phase_prefix_holds. Qed.
-Print Assumptions C02_eval_prefix.
+(* one Eval, any state, any rule set (allow, ctl, skip, skipAfter included): the rules evaluated are a
+   subsequence, in configuration order, of the rules of that phase (for rule sets without flow actions
+   C02_phase_first_disruptive gives the exact prefix, C02_logging_runs_all the whole logging phase) *)
+Theorem C02_eval_in_order : forall c p s,
+  exists evs l, st_trace (tp_eval_phase c p s) = st_trace s ++ EvPhase p :: evs /\
+    Forall2 (is_rule_event p) evs l /\ subseq l (tp_phase_rules c p).
+Proof. exact eval_phase_in_order_holds. Qed.
+Print Assumptions C02_eval_in_order.
 
-(* every evaluated rule is a rule of the configuration, evaluated in its own phase *)
+(* every evaluated rule is a rule (not a marker) of the configuration, evaluated in its own phase *)
 Theorem C02_rules_in_config : forall c ks,
-  Forall (fun e => match e with EvRule p r _ => In r (c_rules c) /\ r_phase r = p | _ => True end)
+  Forall (fun e => match e with
+                   | EvRule p r _ => In r (c_rules c) /\ r_mark r = None /\ (r_phase r = p \/ r_phase r = 0)
+                   | _ => True end)
          (st_trace (tp_run c ks)).
 Proof. exact rules_in_config_holds. Qed.
 Print Assumptions C02_rules_in_config.
